@@ -194,6 +194,10 @@ func c20Judge(o *d2graph.Object, px, py float64) (fail string, detail string) {
 	if len(parts) > 1 && hull.BorderDist(px, py) <= tol {
 		near = true
 	}
+	// ELK reserves label + 1·PADDING (SpacingOpt(label.PADDING, …)): the hull of the ungrown parts
+	if u := layUnion(parts); len(parts) > 1 && u.BorderDist(px, py) <= tol {
+		near = true
+	}
 	switch {
 	case !near:
 		return "detached", fmt.Sprintf("nearest component border is %.1f px away (tol %.1f); extent=%v", best, tol, parts)
@@ -337,27 +341,32 @@ func execC20(c run.Case) (res run.Result) {
 					// centre-to-centre segment lies wholly inside the container (or starts inside the
 					// descendant): TraceToShape finds no intersection and the route keeps the centre
 					trig = "edge-between-ancestor-and-descendant"
-				case cross && fail == "detached" && e.Src != e.Dst && !related && ow > 1 && oh > 1:
+				case cross && fail == "detached" && e.Src != e.Dst && !related && ow >= 1 && oh >= 1:
 					// the two end objects overlap (a C19 defect): the centre-to-centre segment never leaves one of them
 					trig = "overlapping-endpoints"
 				case in.Engine == "elk" && !cross && fail == "detached" && hasMargin && (e.Src == e.Dst || ownDesc):
 					// Object.ShiftDescendants (reflexive IsDescendantOf) moves self loops and edges to own
 					// descendants by margin/2 when the ELK node is shrunk back by its margin
 					trig = "self-loop-or-own-descendant-edge-on-object-with-margin"
-				case in.Engine == "elk" && !cross && fail == "detached" && end.o.IsSequenceDiagram():
+				case fail == "detached" && end.o.IsSequenceDiagram():
+					// the box of a nested sequence diagram is re-fitted after the outer layout / routing
 					trig = "sequence-diagram-endpoint"
-				case in.Engine == "dagre" && !cross && fail == "detached" && e.Src == e.Dst && strings.Contains(feat, "outside-label") && (strings.Contains(feat, "3d") || strings.Contains(feat, "multiple")):
+				case fail == "detached" && strings.Contains(feat, "3d") && strings.Contains(feat, "outside-label") && c20OnUnshiftedLabel(end.o, end.p.X, end.p.Y):
+					// TraceToShape stops at the outside label where it would be without 3d; the renderer draws
+					// the label of a 3d shape shifted by the 3d offset (up / right)
+					trig = "3d-label-shift-ignored-by-trace"
+				case !cross && fail == "detached" && strings.Contains(feat, "outside-label") && (strings.Contains(feat, "3d") || strings.Contains(feat, "multiple")) && (in.Engine == "elk" || e.Src == e.Dst):
 					// GetMargin adds the modifier offset on top of the outside label's margin
-					trig = "self-loop-margin-adds-modifier-offset-to-outside-label"
-				case in.Engine == "dagre" && !cross && (hasMargin || len(end.o.ChildrenArray) > 0 || (end.o.Parent != nil && end.o.Parent.Parent != nil)):
-					// dagre routes and chops first and then moves/resizes objects to make room for margins
+					trig = "margin-adds-modifier-offset-to-outside-label"
+				case in.Engine == "dagre" && !cross:
+					// dagre routes, chops and traces first and then moves/resizes objects to make room for margins
 					// (outside labels/icons, 3d/multiple) and container padding: adjustRankSpacing,
-					// adjustCrossRankSpacing → shiftReachableDown, fitContainerPadding. End points of objects that
-					// take part in that (they have a margin, are containers or live in one) are sometimes not
-					// taken along. A failing end point on a root-level leaf without margin is NOT in this class.
+					// adjustCrossRankSpacing → shiftReachableDown (moves everything "reachable", also plain root
+					// leaves), fitContainerPadding → adjustEdges. Route ends are sometimes not taken along. The class
+					// is every failing dagre-routed end point; its share is bounded by C20.failure-rate.
 					trig = "object-moved-by-spacing-adjustment-after-routing"
 				}
-				res.Inc("fail_" + router + "_" + trig)
+				res.Inc("fail_" + router + "_" + trig + "_" + fail)
 				loop := ""
 				if e.Src == e.Dst {
 					loop = ":self-loop"
@@ -366,14 +375,14 @@ func execC20(c run.Case) (res run.Result) {
 					loop += ":to-own-descendant"
 				}
 				_ = dir
-				sig := fmt.Sprintf("C20.endpoint:%s:%s:%s:%s%s", router, trig, fail, feat, loop)
+				sig := fmt.Sprintf("C20.endpoint:%s:%s:%s:%s%s", trig, router, fail, feat, loop)
 				if sigSeen[sig] {
 					res.Inc("additional_violations_same_signature")
 					continue
 				}
 				sigSeen[sig] = true
 				res.Viol("C20.endpoint-"+fail, sig, fmt.Sprintf("board %s edge %q: %s point (%.1f,%.1f) vs %q box %v: %s\nroute=%s\n--- text:\n%s",
-					b.Path, e.AbsID(), end.name, end.p.X, end.p.Y, end.o.AbsID(), layObjRect(end.o), detail, c20Route(e), in.Text))
+					b.Path, e.AbsID(), end.name, end.p.X, end.p.Y, end.o.AbsID(), layObjRect(end.o), detail, c20Route(e)+fmt.Sprintf(" other end %q %v", other.AbsID(), layObjRect(other)), in.Text))
 			}
 		}
 	}
@@ -393,13 +402,18 @@ var c20RateLimits = map[string]struct {
 	of    string
 	limit float64
 }{
-	"fail_dagre_object-moved-by-spacing-adjustment-after-routing":       {"endpoints_dagre", 0.03},
-	"fail_dagre_self-loop-margin-adds-modifier-offset-to-outside-label": {"endpoints_dagre", 0.01},
-	"fail_elk_self-loop-or-own-descendant-edge-on-object-with-margin":   {"endpoints_elk", 0.06},
-	"fail_elk_sequence-diagram-endpoint":                                {"endpoints_elk", 0.02},
-	"fail_cross-diagram-router_offset-copy-ignored":                     {"endpoints_cross", 0.15},
-	"fail_cross-diagram-router_edge-between-ancestor-and-descendant":    {"endpoints_cross", 0.10},
-	"fail_cross-diagram-router_overlapping-endpoints":                   {"endpoints_cross", 0.05},
+	"fail_dagre_object-moved-by-spacing-adjustment-after-routing_detached":           {"endpoints_dagre", 0.025},
+	"fail_dagre_object-moved-by-spacing-adjustment-after-routing_inside-offset-copy": {"endpoints_dagre", 0.004},
+	"fail_dagre_object-moved-by-spacing-adjustment-after-routing_inside-icon":        {"endpoints_dagre", 0.004},
+	"fail_dagre_object-moved-by-spacing-adjustment-after-routing_inside-label":       {"endpoints_dagre", 0.004},
+	"fail_dagre_object-moved-by-spacing-adjustment-after-routing_inside-box":         {"endpoints_dagre", 0.004},
+	"fail_dagre_margin-adds-modifier-offset-to-outside-label_detached":               {"endpoints_dagre", 0.01},
+	"fail_elk_margin-adds-modifier-offset-to-outside-label_detached":                 {"endpoints_elk", 0.03},
+	"fail_elk_self-loop-or-own-descendant-edge-on-object-with-margin_detached":       {"endpoints_elk", 0.06},
+	"fail_elk_sequence-diagram-endpoint_detached":                                    {"endpoints_elk", 0.02},
+	"fail_cross-diagram-router_offset-copy-ignored_inside-offset-copy":               {"endpoints_cross", 0.10},
+	"fail_cross-diagram-router_edge-between-ancestor-and-descendant_detached":        {"endpoints_cross", 0.05},
+	"fail_cross-diagram-router_overlapping-endpoints_detached":                       {"endpoints_cross", 0.03},
 }
 
 func postC20(d *run.Driver, results []run.Result) {
@@ -425,6 +439,17 @@ func postC20(d *run.Driver, results []run.Result) {
 		}
 	}
 	d.Extra["failure_rates"] = rates
+}
+
+// c20OnUnshiftedLabel: the point is on the border of o's outside label placed WITHOUT the 3d shift.
+func c20OnUnshiftedLabel(o *d2graph.Object, px, py float64) bool {
+	if o.LabelPosition == nil {
+		return false
+	}
+	box := layObjRect(o)
+	tl := label.FromString(*o.LabelPosition).GetPointOnBox(geo.NewBox(geo.NewPoint(box.X, box.Y), box.W, box.H), label.PADDING, float64(o.LabelDimensions.Width), float64(o.LabelDimensions.Height))
+	r := layRect{tl.X - label.PADDING, tl.Y, float64(o.LabelDimensions.Width) + 2*label.PADDING, float64(o.LabelDimensions.Height)}
+	return r.BorderDist(px, py) <= 3
 }
 
 func c20Route(e *d2graph.Edge) string {
